@@ -31,7 +31,8 @@ CHECKS = {
 CHECKS["C18"] = dict(
     text="Coq theorems: for every bufio capacity, every chunking and every sequence of ReadBytes/Read operations the bytes delivered ++ buffered ++ pending "
          "equal the stream, and a raw read after a frame read returns the bytes that follow the frame (Props/C18.v); tie: per-operation equality of the model "
-         "(capacity 4096) with ctxio.Conn on a connection delivering exact chunks, plus upgraded calls through a real service and a real client.",
+         "(capacity 4096) with ctxio.Conn on a connection delivering exact chunks, plus upgraded calls through a real service and a real client, 20 MiB of raw payload, "
+         "and a raw read blocked while writes on the same connection complete.",
     ref="DESIGN.md §6 C18", technique="Coq proof (stream invariant over operation sequences) + differential correspondence")
 
 CHECKS["C01"] = dict(
@@ -70,8 +71,10 @@ CHECKS["C12"] = dict(
 CHECKS["C13"] = dict(
     text="Coq theorems over the registry state machine: names = org.varlink.service followed by the successful registrations in order, each once; refused "
          "registrations (duplicate, while listening) leave the state unchanged; GetInfo / GetInterfaceDescription report exactly the registered values "
-         "(Props/C13.v); tie: operation histories on a real Service object observed through HandleMessage and through the client helpers, plus Resolver helpers.",
-    ref="DESIGN.md §6 C13", technique="Coq proof (invariant by induction over operation sequences) + differential correspondence")
+         "(Props/C13.v); the 'listening' flag is derived in a second model (RegLife) from running flag and connection counter along the service's life cycle; "
+         "tie: operation histories (incl. registration while a stopped service drains, concurrent duplicate registration, Listen vs Bind+DoListen, calls before and "
+         "after registrations) on a real Service object observed through HandleMessage and through the client helpers, plus Resolver helpers.",
+    ref="DESIGN.md §6 C13, §10.4", technique="Coq proof (invariant by induction over operation sequences) + differential correspondence")
 
 CHECKS["C11"] = dict(
     text="Coq theorems: Send is refused iff more&oneway or more&upgrade (for every flag word), nothing is written then, otherwise the frame carries exactly the "
@@ -106,8 +109,10 @@ CHECKS["C17"] = dict(
     text="Coq theorems over an interleaving model of one context-aware operation (caller, helper goroutine, canceller, peer): join on every return, bounded-step "
          "return once the context is done on deadline-honouring transports, no stale deadline can fail a live operation, byte accounting; the pre-fix bridge behaviour "
          "is refuted (Props/C17.v); tie: 4 transports x 3 operations x cancel/deadline x 4 cancellation instants on the real code with latency, goroutine and "
-         "follow-up-integrity observations; outcome classes compared with the model's exhaustive outcome sets.",
-    ref="DESIGN.md §6 C17", technique="Coq proof (reachability invariants + decreasing measure) + differential correspondence on real transports")
+         "follow-up-integrity observations; outcome classes compared with the model's exhaustive outcome sets. A second model (Duplex) composes a read and a write "
+         "on one connection; non-interference is proved for the parameters that a go/ast translator (goctxio) re-derives from ctxio/conn.go on every run and Coq "
+         "checks (each operation sets only its own deadline, owns its channel, joins its helper); full-duplex and client-level context scenarios on real sockets.",
+    ref="DESIGN.md §6 C17, §10.4", technique="Coq proof (reachability invariants + decreasing measure, non-interference of duplex use) + facts regenerated from source by a go/ast translator + differential correspondence on real transports")
 CHECKS["C20"] = dict(
     text="Coq theorems characterising the selected descriptor (activation_fd_spec, first match, range), the fallback in every other environment, and strconv.Atoi "
          "(Props/C20.v); tie: one child process per environment of the (in the thorough tier full) product of LISTEN_PID x LISTEN_FDS x LISTEN_FDNAMES x descriptor "
